@@ -57,28 +57,6 @@ static void compute_key(uint64_t *h1, uint64_t *h2) {
 static void cex_writer(FILE *f);
 static void cex_writer_fwd(FILE *f) { cex_writer(f); }
 
-uint64_t vf_trace_hash(void) {
-    uint64_t h = 0x1234;
-    for (uint32_t i = 0; i < W.ntrace; i++) {
-        vf_trec *t = &W.trace[i];
-        uint32_t hdr[4] = { t->kind, t->iface, t->len, (uint32_t)(uint8_t)t->result };
-        h = vf_hash64(hdr, sizeof hdr, h);
-        if (t->kind == VF_T_SEND) h = vf_hash64(vf_trace_bytes + t->off, t->len, h);
-    }
-    return h;
-}
-
-void vf_trace_print(FILE *f) {
-    for (uint32_t i = 0; i < W.ntrace; i++) {
-        vf_trec *t = &W.trace[i];
-        if (t->kind == VF_T_SLEEP) { fprintf(f, "    sleep %u ms\n", t->len); continue; }
-        fprintf(f, "    send if%u len=%u rc=%d:", t->iface, t->len, t->result);
-        for (uint32_t k = 0; k < t->len && k < 64; k++) fprintf(f, " %02x", vf_trace_bytes[t->off + k]);
-        if (t->len > 64) fprintf(f, " ...");
-        fprintf(f, "\n");
-    }
-}
-
 static const int *manual_path; static int manual_n;
 void e1_manual_path(const e1_cfg *c, const int *ev, int n) { C = c; manual_path = ev; manual_n = n; vf_cex_writer = cex_writer_fwd; }
 
